@@ -402,6 +402,18 @@ pub fn build(case: &Value) -> Vec<(usize, Vec<Bytes>)> {
     out
 }
 
+const RESAVE_LAYOUTS: usize = 5;
+
+fn resave_layout(i: usize) -> Option<Value> {
+    match i {
+        0 => None, // the empty dataset
+        1 => Some(json!({"fam": "dbttl", "type": "string", "db": 0, "ttl_ms": null, "down_ms": 0})),
+        2 => Some(json!({"fam": "dbttl", "type": "list", "db": 15, "ttl_ms": 3_600_000u64, "down_ms": 0})),
+        3 => Some(json!({"fam": "multi", "layout": "six-types-one-name", "down_ms": 0})),
+        _ => Some(json!({"fam": "multi", "layout": "all-16-dbs", "down_ms": 0})),
+    }
+}
+
 pub fn cases(thorough: bool) -> Vec<Value> {
     let mut out = Vec::new();
     let sizes: Vec<usize> = if thorough { vec![0, 1, 2, 62, 63, 64, 65, 255, 256, 16382, 16383, 16384, 16385, 65535, 65536, 70000] } else { vec![0, 1, 63, 64, 16383, 16384] };
@@ -450,6 +462,16 @@ pub fn cases(thorough: bool) -> Vec<Value> {
     for n in if thorough { vec![63usize, 64, 16383, 16384, 70000] } else { vec![63, 64, 1000] } {
         out.push(json!({"fam": "multi", "layout": "many-keys", "n": n}));
     }
+    // a dump of an earlier dataset is already in the directory when the dataset to be compared is saved: every ordered
+    // pair of small layouts (incl. the empty dataset) x how the first became the second (a seeded "nothing to dump"
+    // shortcut for an empty dataset left the previous dump in place, and the deleted keys came back after the restart)
+    for first in 0..RESAVE_LAYOUTS {
+        for second in 0..RESAVE_LAYOUTS {
+            for how in ["flushall", "delete-each", "on-top"] {
+                out.push(json!({"fam": "resave", "first": first, "second": second, "how": how}));
+            }
+        }
+    }
     out.push(json!({"fam": "scores"}));
     for shape in ["min-id", "max-id", "big-ids", "multi-field", "deleted-middle", "deleted-top", "emptied", "trimmed", "numeric-looking", "with-group"] {
         out.push(json!({"fam": "stream", "shape": shape}));
@@ -475,6 +497,7 @@ fn variant(case: &Value) -> String {
         "multi" => case["layout"].as_str().unwrap_or("").to_string(),
         "stream" => case["shape"].as_str().unwrap_or("").to_string(),
         "hist" => case["spec"].as_str().unwrap_or("").to_string(),
+        "resave" => format!("{}:{}->{}", case["how"].as_str().unwrap_or(""), if case["first"] == 0 { "empty" } else { "data" }, if case["second"] == 0 { "empty" } else { "data" }),
         _ => String::new(),
     }
 }
@@ -575,6 +598,47 @@ impl Runner {
         vtime::align_epoch().map_err(|_| "settle timeout".to_string())?;
         let mut c = srv.connect().map_err(|e| format!("connect: {:?}", e))?;
         let mut cur_db = 0usize;
+        if case["fam"] == "resave" {
+            let run = |srv: &Srv, c: &mut Client, cur_db: &mut usize, layout: Option<Value>, lenient: bool| -> Result<(), String> {
+                if let Some(l) = layout {
+                    for (db, cmd) in build(&l) {
+                        if db != *cur_db {
+                            call_big(srv, c, &[b("SELECT"), b(&db.to_string())])?;
+                            *cur_db = db;
+                        }
+                        let r = call_big(srv, c, &cmd)?;
+                        // built on top of the first layout a command may be refused (an id that is already there)
+                        if r.is_err() && !lenient {
+                            return Err(format!("dataset construction: {} -> {}", resp::show_cmd(&cmd), resp::show(&r)));
+                        }
+                    }
+                }
+                Ok(())
+            };
+            run(&srv, &mut c, &mut cur_db, resave_layout(case["first"].as_u64().unwrap_or(0) as usize), false)?;
+            let r = call_big(&srv, &mut c, &[b("SAVE")])?;
+            if r != R::ok() {
+                return Err(format!("first SAVE -> {}", resp::show(&r)));
+            }
+            match case["how"].as_str().unwrap_or("flushall") {
+                "flushall" => {
+                    call_big(&srv, &mut c, &[b("FLUSHALL")])?;
+                }
+                "delete-each" => {
+                    for db in 0..16usize {
+                        call_big(&srv, &mut c, &[b("SELECT"), b(&db.to_string())])?;
+                        cur_db = db;
+                        let keys = bulks(&call_big(&srv, &mut c, &[b("KEYS"), b("*")])?, "KEYS")?;
+                        for k in keys {
+                            call_big(&srv, &mut c, &[b("DEL"), k])?;
+                        }
+                    }
+                }
+                _ => {}
+            }
+            run(&srv, &mut c, &mut cur_db, resave_layout(case["second"].as_u64().unwrap_or(0) as usize), case["how"] == "on-top")?;
+            return self.round_trip(srv, c, 0);
+        }
         for (db, cmd) in build(case) {
             if db != cur_db {
                 let r = call_big(&srv, &mut c, &[b("SELECT"), b(&db.to_string())])?;
